@@ -17,6 +17,7 @@ Definition bsim (m m' : amap BKey Binding) : Prop :=
   forall k, match get k m, get k m' with
             | Some b, Some b' =>
                 b_raw b' = b_raw b /\ b_owner b' = b_owner b /\ (b_avail b' = true -> b_avail b = true)
+                /\ b_qos b' = b_qos b
             | None, None => True
             | _, _ => False
             end.
@@ -28,21 +29,21 @@ Lemma bsim_trans m1 m2 m3 : bsim m1 m2 -> bsim m2 m3 -> bsim m1 m3.
 Proof.
   intros H1 H2 k. specialize (H1 k). specialize (H2 k).
   destruct (get k m1), (get k m2), (get k m3); try tauto.
-  destruct H1 as (? & ? & ?), H2 as (? & ? & ?). repeat split; try congruence. auto.
+  destruct H1 as (? & ? & ? & ?), H2 as (? & ? & ? & ?). repeat split; try congruence. auto.
 Qed.
 
 Lemma bsim_set m k b b' :
   get k m = Some b -> b_raw b' = b_raw b -> b_owner b' = b_owner b ->
-  (b_avail b' = true -> b_avail b = true) -> bsim m (set k b' m).
+  (b_avail b' = true -> b_avail b = true) -> b_qos b' = b_qos b -> bsim m (set k b' m).
 Proof.
-  intros E Hr Ho Ha k'. rewrite get_set.
+  intros E Hr Ho Ha Hq k'. rewrite get_set.
   destruct (eqb_spec k' k) as [->|Hn]; [rewrite E; auto|].
   destruct (get k' m); auto.
 Qed.
 
 Lemma bsim_get m m' k b : bsim m m' -> get k m = Some b ->
   exists b', get k m' = Some b' /\ b_raw b' = b_raw b /\ b_owner b' = b_owner b
-    /\ (b_avail b' = true -> b_avail b = true).
+    /\ (b_avail b' = true -> b_avail b = true) /\ b_qos b' = b_qos b.
 Proof.
   intros Hs E. specialize (Hs k). rewrite E in Hs.
   destruct (get k m') as [b'|]; [eauto|contradiction].
@@ -50,7 +51,7 @@ Qed.
 
 Lemma bsim_get_rev m m' k b' : bsim m m' -> get k m' = Some b' ->
   exists b, get k m = Some b /\ b_raw b' = b_raw b /\ b_owner b' = b_owner b
-    /\ (b_avail b' = true -> b_avail b = true).
+    /\ (b_avail b' = true -> b_avail b = true) /\ b_qos b' = b_qos b.
 Proof.
   intros Hs E. specialize (Hs k). rewrite E in Hs.
   destruct (get k m) as [b|]; [eauto|contradiction].
@@ -128,9 +129,9 @@ Qed.
 
 Lemma ff_put_binding s k b b' :
   get k (binds s) = Some b -> b_raw b' = b_raw b -> b_owner b' = b_owner b ->
-  (b_avail b' = true -> b_avail b = true) ->
+  (b_avail b' = true -> b_avail b = true) -> b_qos b' = b_qos b ->
   fframe s (put_binding s k b').
-Proof. intros E Hr Ho Ha. frame_triv. eapply bsim_set; eauto. Qed.
+Proof. intros E Hr Ho Ha Hq. frame_triv. eapply bsim_set; eauto. Qed.
 
 Lemma ff_deactivate s r : fframe s (deactivate s r).
 Proof. unfold deactivate. destruct (get r (reqs s)); frame_triv. Qed.
@@ -140,11 +141,12 @@ Proof.
   unfold slash. intros H. inv_ok H.
   rename a into q, a0 into rc, a1 into b, a2 into sb, a3 into b2.
   pose proof (ff_burn _ _ _ Ha2) as Hfb.
-  assert (Hb2 : b_raw b2 = b_raw b /\ b_owner b2 = b_owner b /\ (b_avail b2 = true -> b_avail b = true)).
+  assert (Hb2 : b_raw b2 = b_raw b /\ b_owner b2 = b_owner b /\ (b_avail b2 = true -> b_avail b = true)
+                /\ b_qos b2 = b_qos b).
   { destruct (b_avail (setb_deposit b (b_deposit b - mul_trunc (b_deposit b) (p_slash cfg)))) eqn:Eav.
     - inv_ok Ha3. subst b2. destruct (_ <? _); auto.
     - inv_ok Ha3. subst b2. auto. }
-  destruct Hb2 as (Hr & Ho & Hav).
+  destruct Hb2 as (Hr & Ho & Hav & Hqos).
   eapply fframe_trans; [exact Hfb|]. subst s1.
   eapply fframe_trans; [|apply ff_emit].
   apply ff_put_binding with (b := b); auto.
